@@ -9,6 +9,9 @@ Inductive kind := LRI | LRU.
 Definition kind_eqb (a b : kind) : bool :=
   match a, b with LRI, LRI | LRU, LRU => true | _, _ => false end.
 
+(* which reading method takes the snapshot *)
+Inductive snap := SOr | SRor | SRepr.
+
 (* public operations a thread may run on the shared cache *)
 Inductive op :=
 | SetItem (k : K) (v : V)            (* c[k] = v *)
@@ -25,7 +28,8 @@ Inductive op :=
 | EqSelf                             (* c == c *)
 | Copy                               (* c.copy(): observed as the copy's items in eviction order *)
 | Len                                (* len(c) *)
-| Contains (k : K).                  (* k in c *)
+| Contains (k : K)                   (* k in c *)
+| Snapshot (w : snap).               (* c | {} / {} | c / repr(c): all items at one instant, as a set *)
 
 (* what an operation gives back to its thread *)
 Inductive rv :=
@@ -57,14 +61,14 @@ Definition op_keys (o : op) : list K :=
 (* ---- methods and the lock-coverage table ---------------------------------- *)
 Inductive meth :=
 | MSetItem | MGetItem | MGet | MDelItem | MPop | MPopItem | MClear
-| MSetDefault | MUpdate | MIor | MEq | MCopy | MLen | MContains.
+| MSetDefault | MUpdate | MIor | MEq | MCopy | MLen | MContains | MOr | MRor | MRepr.
 
 Definition meth_eqb (a b : meth) : bool :=
   match a, b with
   | MSetItem, MSetItem | MGetItem, MGetItem | MGet, MGet | MDelItem, MDelItem
   | MPop, MPop | MPopItem, MPopItem | MClear, MClear | MSetDefault, MSetDefault
   | MUpdate, MUpdate | MIor, MIor | MEq, MEq | MCopy, MCopy | MLen, MLen
-  | MContains, MContains => true
+  | MContains, MContains | MOr, MOr | MRor, MRor | MRepr, MRepr => true
   | _, _ => false
   end.
 
@@ -74,6 +78,7 @@ Definition meth_of (o : op) : meth :=
   | DelItem _ => MDelItem | Pop _ _ => MPop | PopItem => MPopItem | Clear => MClear
   | SetDefault _ _ => MSetDefault | Update _ => MUpdate | Ior _ => MIor
   | EqDict _ | EqSelf => MEq | Copy => MCopy | Len => MLen | Contains _ => MContains
+  | Snapshot SOr => MOr | Snapshot SRor => MRor | Snapshot SRepr => MRepr
   end.
 
 (* One simple statement (or the test/iterable expression of a compound one) of a
@@ -150,7 +155,7 @@ Definition wraps (tb : lock_table) (c : kind) (m : meth) : bool :=
    known_findings.d/C03.json) *)
 Definition locked_meths : list meth :=
   [MSetItem; MGetItem; MGet; MDelItem; MPop; MPopItem; MClear; MSetDefault; MUpdate; MIor; MEq; MCopy;
-   MLen; MContains].
+   MLen; MContains; MOr; MRor; MRepr].
 
 Definition meth_covered (tb : lock_table) (c : kind) (m : meth) : bool :=
   match meth_status tb c m, m with
